@@ -14,7 +14,7 @@ CONFIG = worlda.base_config(
     "histories and flag alphabets, which can only be sampled.",
     expected_probes=["deliveries"],
 )
-CONFIG["assumptions"].append("keyword alphabet sampled from a tame pool (wild pool - atoms that collide with MH sequence names - in thorough tier); not exhaustive over keyword atoms")
+CONFIG["assumptions"].append("keyword alphabet sampled from a tame pool and (25 % of quick, 40 % of thorough programs) a wild pool of atoms that collide with MH sequence names or MH syntax; not exhaustive over keyword atoms")
 
 WEIGHTS = {
     "select": 2, "append": 3, "store": 8, "delete_flag": 1, "fetch": 4, "search": 3, "expunge": 1, "copy": 2, "move": 1,
@@ -28,11 +28,18 @@ def generate(seed, tier, index, kf):
     r = random.Random(seed)
     prof = {
         "mailboxes": ["inbox", "work"], "sessions": r.randint(1, 3), "weights": WEIGHTS, "init_hi": 6,
-        "ops_lo": 8, "ops_hi": 35 if tier == "quick" else 50, "keywords": "tame", "mode": "sequential", "probe_p": r.choice((1.0, 1.0, 0.35, 0.1)),
+        "ops_lo": 8, "ops_hi": 35 if tier == "quick" else 50, "keywords": "wild" if r.random() < (0.25 if tier == "quick" else 0.4) else "tame", "mode": "sequential",
         "recent_p": 0.05, "bad_set_p": 0.04,
     }
     prog = mailstore.generate(seed, prof)
     prog["props"] = [PROP]
+    if prof["keywords"] == "wild" and r.random() < 0.5:
+        # keywords that ARE the MH sequence names of system flags
+        sids = [s_["id"] for s_ in prog["sessions"]]
+        for _ in range(r.randint(1, 2)):
+            at = r.randint(1, len(prog["ops"]))
+            prog["ops"].insert(at, {"s": r.choice(sids), "op": "alias_probe", "kw": r.choice(mailstore.ALIAS_KW), "pos": r.randint(1, 6)})
+    prog["probe_p"] = r.choice((1.0, 1.0, 0.35, 0.1))
     return prog
 
 
